@@ -228,6 +228,15 @@ func c10Enumerate(thorough bool, emit func(cs c10Case, text string) bool) {
 		out("no-rule", "", false, t)
 	}
 
+	// characters that Go's unicode.IsSpace (strings.TrimSpace / Fields) treats as white space but that
+	// may or may not be white space for the lexer: alone, and in front of / behind / inside a valid text
+	valid := "rule \"n\" \"d\" salience 3 begin return 1 end"
+	for _, sp := range []string{"\f", "\v", "\u00a0", "\u0085", "\u2028", "\u2029", "\u3000", "\ufeff", "\x00"} {
+		for _, t := range []string{sp, sp + valid, valid + sp, valid + "\n" + sp, sp + "\n" + valid, "rule" + sp + "\"n\" begin end", valid + " " + sp + " "} {
+			out("odd-space", "", false, t)
+		}
+	}
+
 	// (ii) all token strings of length <= L over the core alphabet, bare and wrapped in a rule
 	maxL := 3
 	if thorough {
@@ -1267,7 +1276,7 @@ func init() {
 		BudgetQuick: 5 * time.Minute,
 		BudgetThor:  14 * time.Minute,
 		Kind:        "cases",
-		Rule: "distinct input texts: (iii) all byte strings of length <= 3 over {\" \\ / LF r ( 0 . @ NUL 0xff} + whitespace/comment-only texts; " +
+		Rule: "distinct input texts: (iii) all byte strings of length <= 3 over {\" \\ / LF r ( 0 . @ NUL 0xff} + whitespace/comment-only texts + characters that are white space for Go's unicode tables but not necessarily for the lexer (form feed, vertical tab, NBSP, NEL, U+2028/9, U+3000, BOM, NUL) alone and in front of / behind / inside a valid text; " +
 			"(ii) all token strings of length <= 3 (thorough: 4) over a 14-token core alphabet, bare and wrapped in rule \"n\" begin .. end; " +
 			"(iv) 3-rule texts with one name defined twice in every position pair (fresh and installed names, equal and different bodies) and texts re-defining installed names once; " +
 			"(i) the single-token-edit neighbourhood (every deletion, every substitution and insertion from a 36-token alphabet: all keywords, brackets, operators, literal forms, dotted names, @name, `#`, an unterminated string, `//`) of 2 (thorough: 6) valid seed texts covering every statement and expression form; " +
